@@ -317,12 +317,13 @@ def _words(rules, S, k):
     seen, todo, words = set(), [((S, 'Variable'),)], set()
     while todo:
         form = todo.pop()
-        if form in seen or len(form) > k:
+        if form in seen or len(form) > max(k, 1):     # the start form has length 1 and may still shrink to the empty word
             continue
         seen.add(form)
         idx = next((i for i, (x, kind) in enumerate(form) if kind == 'Variable'), None)
         if idx is None:
-            words.add(''.join(x for x, _ in form))
+            if len(form) <= k:
+                words.add(''.join(x for x, _ in form))
             continue
         for syms in by.get(form[idx][0], []):
             todo.append(form[:idx] + tuple(syms) + form[idx + 1:])
@@ -530,3 +531,43 @@ def check_subset_name_readers(ctx, rep, host, writer, rule='R-IO.inv'):
         except (Unsupported, RecursionError) as e:
             rep.undecided(rule, g, 'def ' + g.name, 'outside the evaluator: {}'.format(e))
     return n
+
+
+# ---- the grammar enumerator on model grammars in Chomsky normal form ----------------------------------------------------------
+
+_CNF_GRAMMARS = {
+    'S -> AB; A -> AA | a; B -> BB | b': [('S', ['AB']), ('A', ['AA', 'a']), ('B', ['BB', 'b'])],
+    'S -> eps | AB; A -> a; B -> b': [('S', ['', 'AB']), ('A', ['a']), ('B', ['b'])],
+    'S -> XC; X -> AB; A -> AA | a; B -> b; C -> CC | c': [('S', ['XC']), ('X', ['AB']), ('A', ['AA', 'a']), ('B', ['b']), ('C', ['CC', 'c'])],
+    'S -> a': [('S', ['a'])],
+    'S -> AA | a; A -> BB | b; B -> AB | c': [('S', ['AA', 'a']), ('A', ['BB', 'b']), ('B', ['AB', 'c'])],
+}
+
+
+def check_cfg_words(ctx, rep, f, rule=RULE + '.M18'):
+    """cfg_words_up_to_n on model grammars in Chomsky normal form, n = 0..4: exactly the words up to length n that the start
+    variable derives (computed by the analyser from the model).  The models need a variable that is NOT the leftmost one to
+    be expanded while the leftmost one could be expanded as well, an empty-word rule, and mutual recursion."""
+    cases = 0
+    try:
+        for name, rules in _CNF_GRAMMARS.items():
+            for n in range(5):
+                G = _grammar(rules)
+                G._f['epsilon'] = T('ε')
+                want = _words(_rules_of(G), 'S', n)
+                ok, got = _run(rule, rep, f, lambda: _interp(ctx, 'asc', classes=_CFG_CLASSES, max_steps=2000000).call(f, [G, n]), 'on the grammar {} with n = {}'.format(name, n))
+                if not ok:
+                    return
+                if not isinstance(got, (set, frozenset)):
+                    raise Unsupported('the result is not a set')
+                cases += 1
+                have = {str(w) for w in got}
+                if have != want:
+                    extra, missing = sorted(have - want), sorted(want - have)
+                    rep.violates(rule, f, 'def ' + f.name, 'on the grammar {} with n = {} the result {}'.format(
+                        name, n, 'contains {!r}, which the start variable does not derive within the bound'.format(extra[0]) if extra else 'misses {!r}, which the start variable derives'.format(missing[0])))
+                    return
+    except (Unsupported, RecursionError) as e:
+        rep.undecided(rule, f, 'def ' + f.name, 'outside the evaluator: {}'.format(e))
+        return
+    rep.holds(rule, f, 'def ' + f.name, 'on {} runs (five model grammars in Chomsky normal form, n = 0..4) the result is exactly the set of words up to length n that the start variable derives'.format(cases))
